@@ -9,7 +9,7 @@ surgery of the C text: `get_node_at` (which walks from `head` and hands back the
 the `tail = prev` fix-up), `unlinkn_all`, `link_all_externally`, `splice_between`.  On top of them: `add`, `add_first`,
 `add_last`, `add_at`, `add_all`, `add_all_at`, `splice`, `splice_at`, `remove`, `remove_at`, `remove_first`, `remove_last`
 (the predecessor search of the C text), `remove_all(_cb)`, `replace_at`, `reverse` (the three-pointer in-place reversal),
-`destroy(_cb)`.
+`filter_mut` (with the trailing `prev` that advances only over kept nodes), `destroy(_cb)`.
 
 Proved (helpers: `Proofs/PSList.lean`, `PSListOps.lean`, `PSListBulk.lean`, `PSListHistory.lean`):
 * well-formedness `WF` (following `next` from `head` visits `size` distinct live nodes, the last of which is `tail` and has
@@ -26,8 +26,9 @@ together with `head`/`tail` ids read from the C heap (`harness/shim_slist.c`, `l
 `Model/PSList.lean` alongside and prints the same from its heap, so layer L3 compares the link structure and the identity
 of the nodes one by one on every run.
 
-Not at pointer level (they keep their sequence-level models and theorems): the iterator and zip mutators, `filter_mut`,
-`sort` and the derived-list builders; after one of these the driver rebuilds the pointer-level state from the sequence-level
+`history_refines`/`history_refines_ideal` quantify over `List POp` (16 operations incl. `filter_mut` and the exchange of roles).
+Not at pointer level (they keep their sequence-level models and theorems): the iterator and zip mutators, `sort` (rewrites
+`data` only) and the derived-list builders; after one of these the driver rebuilds the pointer-level state from the sequence-level
 one and both sides renumber their nodes (links are still compared, node identity across that operation is not). -/
 namespace CC.Properties.C04PSList
 open CC CC.Chain CC.PSList
@@ -54,8 +55,8 @@ theorem ends (h : Heap) (l : Hdr) (w : WF h l) :
 /-- **one step**: every pointer-level operation keeps both lists well-formed and disjoint, and yields exactly the output,
 the ledger and the contents of the sequence-level step (`Model/LinkedList.lean`) on the canonical chains -/
 theorem step_refines (P : Params) (p : PS) (c1 c2 : List Cell) (op : POp) (m : Mem) (I : SInv2 p c1 c2) :
-    ∃ c1' c2', SInv2 (sstep p op m).2.1 c1' c2' ∧
-      SList.step P (absPair p c1 c2) op.toOp m = ((sstep p op m).1, absPair (sstep p op m).2.1 c1' c2', (sstep p op m).2.2) :=
+    ∃ c1' c2', SInv2 (sstep P p op m).2.1 c1' c2' ∧
+      SList.step P (absPair p c1 c2) op.toOp m = ((sstep P p op m).1, absPair (sstep P p op m).2.1 c1' c2', (sstep P p op m).2.2) :=
   sstep_refines P p c1 c2 op m I
 
 /-- two freshly constructed (empty) lists on the triples `t1`, `t2` -/
@@ -69,13 +70,13 @@ theorem fresh_inv (t1 t2 : Triple) : SInv2 (fresh t1 t2) [] [] := by
 /-- **whole histories from `new`**: outputs and ledger of the pointer-level run are those of the sequence-level run; both
 lists end well-formed; their `next`-contents are the contents of the sequence-level final states -/
 theorem history_refines (P : Params) (t1 t2 : Triple) (ops : List POp) (m : Mem) :
-    (srun (fresh t1 t2) ops m).1 = (SList.run P (ofList t1 [], ofList t2 []) (ops.map POp.toOp) m).1 ∧
-    (srun (fresh t1 t2) ops m).2.2 = (SList.run P (ofList t1 [], ofList t2 []) (ops.map POp.toOp) m).2.2 ∧
-    WF (srun (fresh t1 t2) ops m).2.1.st.heap (srun (fresh t1 t2) ops m).2.1.l1 ∧
-    WF (srun (fresh t1 t2) ops m).2.1.st.heap (srun (fresh t1 t2) ops m).2.1.l2 ∧
-    fwd (srun (fresh t1 t2) ops m).2.1.st.heap (srun (fresh t1 t2) ops m).2.1.l1 =
+    (srun P (fresh t1 t2) ops m).1 = (SList.run P (ofList t1 [], ofList t2 []) (ops.map POp.toOp) m).1 ∧
+    (srun P (fresh t1 t2) ops m).2.2 = (SList.run P (ofList t1 [], ofList t2 []) (ops.map POp.toOp) m).2.2 ∧
+    WF (srun P (fresh t1 t2) ops m).2.1.st.heap (srun P (fresh t1 t2) ops m).2.1.l1 ∧
+    WF (srun P (fresh t1 t2) ops m).2.1.st.heap (srun P (fresh t1 t2) ops m).2.1.l2 ∧
+    fwd (srun P (fresh t1 t2) ops m).2.1.st.heap (srun P (fresh t1 t2) ops m).2.1.l1 =
       (SList.run P (ofList t1 [], ofList t2 []) (ops.map POp.toOp) m).2.1.1.abs ∧
-    fwd (srun (fresh t1 t2) ops m).2.1.st.heap (srun (fresh t1 t2) ops m).2.1.l2 =
+    fwd (srun P (fresh t1 t2) ops m).2.1.st.heap (srun P (fresh t1 t2) ops m).2.1.l2 =
       (SList.run P (ofList t1 [], ofList t2 []) (ops.map POp.toOp) m).2.1.2.abs := by
   obtain ⟨c1, c2, I, e⟩ := srun_refines P ops (fresh t1 t2) [] [] m (fresh_inv t1 t2)
   have e0 : absPair (fresh t1 t2) [] [] = (ofList t1 [], ofList t2 []) := rfl
@@ -85,22 +86,17 @@ theorem history_refines (P : Params) (t1 t2 : Triple) (ops : List POp) (m : Mem)
   have w2 : WF _ _ := ⟨c2, I.rep.r2⟩
   exact ⟨rfl, rfl, w1, w2, by rw [I.rep.r1.fwd]; rfl, by rw [I.rep.r2.fwd]; rfl⟩
 
-/-- … and therefore (with `C04.slist_history_refines_skipping`) the pointer-level run yields the outputs and contents of the
-ideal lists on which the refused operations did not happen; `splice` between lists on different triples is excluded
-there only because of the ledger, so it is excluded here as well -/
-theorem history_refines_ideal (P : Params) (t1 t2 : Triple) (ops : List POp) (m : Mem)
-    (hc : t1 = t2 ∨ ∀ op, op ∈ ops.map POp.toOp → ListHistory.isSplice op = false) :
-    (srun (fresh t1 t2) ops m).1 =
-      (LSeq.runSkipping false P ([], []) (ops.map POp.toOp) ((srun (fresh t1 t2) ops m).1.map (·.st))).1 ∧
-    (fwd (srun (fresh t1 t2) ops m).2.1.st.heap (srun (fresh t1 t2) ops m).2.1.l1,
-     fwd (srun (fresh t1 t2) ops m).2.1.st.heap (srun (fresh t1 t2) ops m).2.1.l2) =
-      (LSeq.runSkipping false P ([], []) (ops.map POp.toOp) ((srun (fresh t1 t2) ops m).1.map (·.st))).2 := by
+/-- … and therefore (with `C04.slist_history_content`) the pointer-level run yields the outputs and contents of the ideal lists on
+which the refused operations did not happen — for **every** history over `POp`, `splice`/`splice_at` between lists on
+different allocator triples included (the content statement does not depend on the ledger) -/
+theorem history_refines_ideal (P : Params) (t1 t2 : Triple) (ops : List POp) (m : Mem) :
+    (srun P (fresh t1 t2) ops m).1 =
+      (LSeq.runSkipping false P ([], []) (ops.map POp.toOp) ((srun P (fresh t1 t2) ops m).1.map (·.st))).1 ∧
+    (fwd (srun P (fresh t1 t2) ops m).2.1.st.heap (srun P (fresh t1 t2) ops m).2.1.l1,
+     fwd (srun P (fresh t1 t2) ops m).2.1.st.heap (srun P (fresh t1 t2) ops m).2.1.l2) =
+      (LSeq.runSkipping false P ([], []) (ops.map POp.toOp) ((srun P (fresh t1 t2) ops m).1.map (·.st))).2 := by
   obtain ⟨h1, _, _, _, h5, h6⟩ := history_refines P t1 t2 ops m
-  have hp : ListHistory.PairOk (ofList t1 [], ofList t2 []) m :=
-    ⟨ofList_inv _, ofList_inv _, fun t => by
-      simp only [ListHistory.owned, ownedBy, ofList_abs, ofList_triple, List.length_nil]
-      by_cases x1 : t1 = t <;> by_cases x2 : t2 = t <;> simp [x1, x2]⟩
-  have := C04.slist_history_refines_skipping P (ops.map POp.toOp) (ofList t1 [], ofList t2 []) m hp hc
+  have := C04.slist_history_content P (ops.map POp.toOp) (ofList t1 [], ofList t2 []) m (ofList_inv _) (ofList_inv _)
   rw [h1, h5, h6]
   exact ⟨this.1, this.2.1⟩
 
@@ -118,11 +114,21 @@ theorem unlink_links (s : St) (l : Hdr) (pre post : List Cell) (a : Cell) (m : M
 theorem reverse_links (s : St) (l : Hdr) (cs : List Cell) (r : SRepr s.heap l cs) :
     SRepr (reverse s l).1.heap (reverse s l).2 cs.reverse := (reverse_spec s l cs r).1
 
+/-- `cc_slist_filter_mut` at the level of nodes: exactly the nodes whose element fails the predicate leave the chain — each
+unlinked behind its **true** predecessor, the last node kept so far (one release each); the others keep identity and order;
+the result is well-formed.  (A loop whose `prev` also advanced over an unlinked node does not satisfy this: after two
+consecutive removals the predecessor's `next` would still point at a released node.) -/
+theorem filter_mut_links (pr : Nat → Bool) (s : St) (l : Hdr) (cs : List Cell) (m : Mem) (r : SRepr s.heap l cs)
+    (hb : ∀ y, y ∈ idsOf cs → y < s.fresh) (hne : cs ≠ []) :
+    SRepr (filterMut pr s l m).2.1.heap (filterMut pr s l m).2.2.1 (cs.filter (fun c => pr c.2)) ∧
+    (filterMut pr s l m).2.2.2 = Mem.freeN l.triple (cs.length - (cs.filter (fun c => pr c.2)).length) m :=
+  ⟨((filterMut_spec pr s l cs m r hb).2 hne).2.2.repr, ((filterMut_spec pr s l cs m r hb).2 hne).2.1⟩
+
 /-! ## Non-vacuity: a history with insertion in the middle, reversal, bulk copy, splice and removal, read along the links -/
 example :
-    (fwd (srun (fresh .conf .conf) [.addLast 1, .addLast 2, .addAt 3 1, .reverse, .swapRoles, .addLast 9, .swapRoles, .addAllAt 1,
+    (fwd (srun ⟨fun v => v % 2 == 0, LSeq.cmpNum⟩ (fresh .conf .conf) [.addLast 1, .addLast 3, .addLast 2, .addAt 4 1, .addLast 6, .filterMut, .reverse, .swapRoles, .addLast 9, .swapRoles, .addAllAt 1,
         .spliceAt 2, .removeAt 1, .removeLast] {}).2.1.st.heap
-      (srun (fresh .conf .conf) [.addLast 1, .addLast 2, .addAt 3 1, .reverse, .swapRoles, .addLast 9, .swapRoles, .addAllAt 1,
-        .spliceAt 2, .removeAt 1, .removeLast] {}).2.1.l1) = [2, 9, 3] := by decide
+      (srun ⟨fun v => v % 2 == 0, LSeq.cmpNum⟩ (fresh .conf .conf) [.addLast 1, .addLast 3, .addLast 2, .addAt 4 1, .addLast 6, .filterMut, .reverse, .swapRoles, .addLast 9, .swapRoles, .addAllAt 1,
+        .spliceAt 2, .removeAt 1, .removeLast] {}).2.1.l1) = [6, 9, 2] := by decide
 
 end CC.Properties.C04PSList
